@@ -416,7 +416,6 @@ class TextRenderer(BaseRenderer):
     def do_quote(self, node):
         backslash = self['\\']
         self['\\'] = lambda *args: u'\001'
-        res = [x.strip() for x in str(node).split(u'\001')]
         output = []
         for par in [x.strip() for x in str(node).split(u'\n\n')]:
             for item in [x.strip() for x in par.split(u'\001')]:
